@@ -82,13 +82,20 @@ def plan(tier, seed):
     for rtype in (('ASP', 'GLU', 'HIS', 'ARG', 'TYR', 'LYS', 'CYS', 'GLY') if tier == 'quick' else AA20):
         for position in ('middle', 'last'):
             shards.append(('multiconf', rtype, position, 2 if tier == 'quick' else 3, None))
+    # truncations under options: the structure carries hydrogens (the program's own, written back) and is run with keep-protons /
+    # protonate-all / both, with titrate-only lists that name the truncated residue, with -d and -c
+    for rtype in (('ASP', 'HIS', 'ARG', 'TYR', 'LYS', 'CYS', 'SER', 'ASN', 'GLY') if tier == 'quick' else AA20):
+        for position in ('middle', 'last'):
+            shards.append(('options', rtype, position, None, None))
     shards.append(('reject', None, None, None, None))
     return dict(shards=shards, exhaustive=True,
                 rule=('all atom subsets of one residue in a tripeptide (middle position: 20 types; first / last-with-OXT: 5 types quick, 20 '
                       'thorough; residues with more than 9 atoms: all deletions of <= 3 (<= 2 for > 11 atoms) atoms in the quick tier, all '
                       'subsets in the thorough tier for the middle position and for residues of <= 11 atoms at the termini); all deletions of <= 2 atoms and of each whole residue in 8 A cut-outs; all subsets of '
                       'the side-chain / ligand atoms of partner A in docked pairs (10x5 kinds); deletions of <= 2 (thorough 3) atoms of a residue '
-                      'inside two-conformation inputs (alt-loc elsewhere; two models truncated alike; truncated in one model only); rejection cases. non-trivial = distinct '
+                      'inside two-conformation inputs (alt-loc elsewhere; two models truncated alike; truncated in one model only); single-atom, '
+                      'side-chain, backbone and whole-residue deletions from tripeptides that carry hydrogens, under 8 option sets (keep-protons, '
+                      'protonate-all, both, -d, -c, titrate-only lists naming the truncated residue); rejection cases. non-trivial = distinct '
                       'truncated inputs that still contain at least one ionizable group by the reference census'),
                 bounds=dict(shards=len(shards)), samples=[dict(rtype='ASP', position='middle', removed=['CG', 'OD1'])])
 
@@ -108,17 +115,21 @@ def multiconf_items(sub, full, context):
     return ['MODEL        1\n'] + cl(m[0]) + ['TER\n', 'ENDMDL\n', 'MODEL        2\n'] + cl(m[1]) + ['TER\n', 'ENDMDL\n'], m[2]
 
 
-def judge(case, items, acc, what, expect_items=None):
+OPTION_SETS = (('--keep-protons',), ('--protonate-all',), ('--keep-protons', '--protonate-all'), ('-d',), ('-c', 'A'), 'titrate-target', 'titrate-all',
+               'titrate-all+keep')
+
+
+def judge(case, items, acc, what, expect_items=None, opts=(), titrate_only=None):
     text = gen.to_text(items)
     atoms = [i for i in items if not isinstance(i, str)]
     if not atoms:
         return
-    exp, info, st, tr = c01.census(items if expect_items is None else expect_items)
+    exp, info, st, tr = c01.census(items if expect_items is None else expect_items, titrate_only=titrate_only)
     acc.n += 1
     if exp:
         acc.nontrivial_n += 1
     try:
-        mol = pk.run(text)
+        mol = pk.run(text, opts)
     except Exception as exc:
         acc.outcomes['raised'] += 1
         acc.viols.append(Viol(case, 'graceful', 'truncation-raises/' + exc_key(exc), '%s: %s: %s' % (what, type(exc).__name__, str(exc)[:120]),
@@ -172,6 +183,17 @@ def run_shard(shard, ctx):
             for comb in itertools.combinations(range(n), k):
                 for context in ('altloc-elsewhere', 'model-both', 'model-1-complete', 'model-2-complete'):
                     run_case(dict(kind='multiconf', rtype=rtype, position=position, drop=list(comb), context=context), ctx, acc)
+    elif kind == 'options':
+        _, rtype, position, _, _ = shard
+        items, target = tripeptide(rtype, position)
+        n = len(target)
+        drops = [[j] for j in range(n)] + [[j for j in range(n) if target[j].name not in gen.BACKBONE + ('OXT',)], list(range(n)),
+                                            [j for j in range(n) if target[j].name in gen.BACKBONE]]
+        for drop in drops:
+            if not drop:
+                continue
+            for k, o in enumerate(OPTION_SETS):
+                run_case(dict(kind='options', rtype=rtype, position=position, drop=drop, optset=k), ctx, acc)
     elif kind == 'cutout':
         run_case(dict(kind='cutout', d=shard[1]), ctx, acc)
     elif kind == 'functional':
@@ -205,6 +227,39 @@ def run_case(case, ctx, acc):
         sub = [it for it in items if not any(it is g for g in gone)]
         inp, expect = multiconf_items(sub, items, case['context'])
         judge(case, inp, acc, '%s %s without %s (%s)' % (case['rtype'], case['position'], [g.name for g in gone], case['context']), expect_items=expect)
+    elif k == 'options':
+        from . import c07
+        items, target = tripeptide(case['rtype'], case['position'])
+        for it in items:
+            it.x += off[0]
+            it.y += off[1]
+            it.z += off[2]
+        full = gen.S(list(items))
+        fed = c07.hydrogens_fed_back(full, pk.run(gen.to_text(full)))     # the complete structure with hydrogens
+        if fed is None:
+            acc.skipped += 1
+            return
+        gone = [target[j] for j in case['drop']]
+        sub = [it for it in fed if not any(it is g for g in gone)]          # heavy atoms removed, their hydrogens stay
+        o = OPTION_SETS[case['optset']]
+        tkey = (target[0].chain, target[0].resnum, target[0].icode)
+        allkeys = []
+        for it in items:
+            if it.reskey not in allkeys:
+                allkeys.append(it.reskey)
+        arg = lambda ks: ','.join('%s:%d%s' % (c, n_, i.strip()) for c, n_, i in ks)   # noqa: E731
+        kw = {}
+        if o == 'titrate-target':
+            o, kw = ('-i', arg([tkey])), dict(titrate_only=[tkey])
+        elif o == 'titrate-all':
+            o, kw = ('-i', arg(allkeys)), dict(titrate_only=allkeys)
+        elif o == 'titrate-all+keep':
+            o, kw = ('-i', arg(allkeys), '--keep-protons'), dict(titrate_only=allkeys)
+        elif o == ('-c', 'A'):
+            o = ('-c', target[0].chain)
+        heavy_sub = [it for it in sub if isinstance(it, str) or it.element != 'H']
+        judge(case, sub, acc, '%s %s without %s, options %s' % (case['rtype'], case['position'], [g.name for g in gone], ' '.join(o)),
+              expect_items=heavy_sub, opts=tuple(o), **kw)
     elif k == 'cutout':
         s = corpus.build(case['d'], ctx.seed)
         atoms_idx = [i for i, it in enumerate(s.items) if not isinstance(it, str)]
